@@ -32,7 +32,7 @@ RULE = (
     "over all 2-worker schedules <= p pre-emptions; distinct = distinct (item, vector/schedule, traffic); non-trivial = the run sent requests"
 )
 BOUNDS = {
-    "quick": {"seeds": [0, 1], "vectors": "reference + 5 single-factor + all-factors", "preemptions": 1, "max_exec_per_item": 250},
+    "quick": {"seeds": [0, 1], "vectors": "reference + 5 single-factor + all-factors", "preemptions": 1, "max_exec_per_item": 3000},
     "thorough": {"seeds": [0, 1, 2], "vectors": "full product 2^4 x repeat", "preemptions": 2, "max_exec_per_item": 20000},
 }
 BUDGET_S = {"quick": 140, "thorough": 3300}
@@ -125,9 +125,12 @@ def items(tier: str, seed: int) -> list[dict]:
                     modes_list.append(["positive", "negative"])
                 for modes in modes_list:
                     out.append({"part": "a", "doc": doc, "seed": base_seed + s, "phases": phases, "modes": modes})
-    for doc, phases in (("unit3", ["examples", "coverage", "fuzzing"]), ("unit3", ["fuzzing"]), ("rich", ["coverage"])):
-        out.append({"part": "b", "doc": doc, "phases": phases, "workers": 2, "p": b["preemptions"], "e": 0, "max_examples": 2,
-                    "behaviour": "ok", "fault": None, "max_failures": None, "ctrl_c": False})
+    b_items = [("unit3", ["coverage"]), ("unit3", ["fuzzing"]), ("rich", ["coverage"]), ("unit2", ["examples", "fuzzing"])]
+    if tier == "thorough":
+        b_items += [("unit3", ["examples", "coverage", "fuzzing"]), ("rich", ["fuzzing"])]
+    for doc, phases in b_items:
+        out.extend(ee.sharded({"part": "b", "doc": doc, "phases": phases, "workers": 2, "p": b["preemptions"], "e": 0, "max_examples": 2,
+                               "behaviour": "ok", "fault": None, "max_failures": None, "ctrl_c": False}, 8 if tier == "quick" else 16))
     return out
 
 
@@ -207,6 +210,7 @@ def check_b(item: dict, tier: str) -> Result:
     # the reference: one worker, same process, same configuration
     ref_item = {**item, "workers": 1, "p": 0}
     ref_item.pop("replay_choices", None)
+    ref_item.pop("shard", None)
     ee.DOCS.setdefault("rich", RICH)
     ref_multiset = None
     for run, _, _ in ee.explore_item(ref_item, max_executions=1):
